@@ -85,7 +85,10 @@ def check_run(chk, cfg, mode, lines, keep):
         if not core.close(rec["ratio"][t], r_, 0, 1e-9 * scale):
             chk.fail("per-step ratio = log mean incremental weight of the pre-resampling population", case,
                      f"iteration {t + 1}: recorded {rec['ratio'][t]!r}, recomputed {r_!r}", {**sig, "clause": "ratio"})
-        if not core.close(rec["var"][t], v_, 1e-6 * scale, 1e-13):
+        # relative accuracy of a two-pass variance of weights that are uniform to a relative spread delta is ~ eps / delta
+        delta = math.sqrt(max(v_ * len(pop["ll"]), 0.0))
+        vtol = 1e-6 * scale + (16 * 2.0 ** -52 / delta if delta > 0 else 1.0)
+        if not core.close(rec["var"][t], v_, vtol, 1e-300):
             chk.fail("per-step variance", case, f"iteration {t + 1}: recorded {rec['var'][t]!r}, recomputed {v_!r}", {**sig, "clause": "var"})
         if res["cfg"]["ns"] == "numpy":
             lines.append(f"f64 ratio {fh(betas[t])} {fh(betas[t + 1])} {fl(pop['ll'])} {fl(pop['lp'])} {fl(pop['lq'])}")
